@@ -167,6 +167,13 @@ def main():
         return common.finish(rep)
     scns = scenrun.enumerate_scenarios(rep, "MC_XPreproc", cfg(rep.tier), f"c02_{rep.tier}")
     findings = scenrun.evaluate(rep, scns, evaluate, procs=a.procs)
+
+    def _mut(s):
+        if s["lay"]["kind"] == "DS2diff" or s["lay"]["shuffle"]:
+            return None
+        s["pred"]["ncols"] += 1
+        return s
+    scenrun.self_test(rep, scns, evaluate, _mut, "predicted column count + 1")
     scenrun.report(rep, findings, TAGS)
     rep.exhaustive = True
     rep.extra["rule"] = "every XPreproc layout within the tier's constants; distinct by layout record; non-trivial = more than one dimension on either side, a non-plain index, or more than one variable/item"
